@@ -2,10 +2,11 @@
 # Build the framework from files on disk only (offline).
 set -e
 export CARGO_NET_OFFLINE=true
-cd /verif
+cd "$(dirname "$0")"
+REPO=${VERIF_REPO:-/repo}
 python3 tools/translate.py || true
 (cd lean && lake build driver RucteModel RucteTables RucteProofs; lake build RucteProps RucteProofs.SrcGen || true)
-cp /repo/Cargo.lock harness/Cargo.lock 2>/dev/null || true
+cp $REPO/Cargo.lock harness/Cargo.lock 2>/dev/null || true
 cd harness
 cargo build --release --offline --target-dir target
 cargo build --release --offline --target-dir target-mime03 --features mime03
